@@ -241,11 +241,20 @@ def dependentsF : Nat → List (Key × Key) → List Key → List Key
 
 def fileOfKey (fileOf : List (Key × Str)) (k : Key) : Option Str := (fileOf.find? (·.1 = k)).map (·.2)
 
+/-- an object as it is after its deactivation was aborted by an exception: still there, no longer active -/
+def deactivated (o : OObj) : OObj := { o with active := false }
+
 /-- `created` = the objects of `before` that a create CALL of this history produced (the history's notion of
     "created at runtime"; everything else was loaded from the static configuration or generated by an apply
-    rule); `fileOf` = the file each of them was written to. -/
+    rule); `fileOf` = the file each of them was written to.
+    `thr` = fault injected by the environment: the object whose deactivation signal was answered by an exception
+    during this call (`none`: nothing went wrong).  The fault excuses exactly this: the call may report failure
+    although it was asked for something it must otherwise do, dependents that were reached before the fault may be
+    gone, and the object named by the fault may be left deactivated.  It excuses nothing else: a call that reports
+    SUCCESS has removed the object, its item and its file and (cascading) every dependent; whatever object went, its
+    item and file went with it; whatever object stayed kept its item and its file; nothing else changed. -/
 def specDelete (before : World) (k : Key) (cascade found : Bool) (res : Option Res) (created : List Key)
-    (fileOf : List (Key × Str)) (deps : List (Key × Key)) (after : World) : Option String :=
+    (fileOf : List (Key × Str)) (deps : List (Key × Key)) (after : World) (thr : Option Key := none) : Option String :=
   let file := fileOfKey fileOf k
   if !nodupKeys (after.objs.map (·.key)) then some "unique_names"
   else if !allRegistered after then some "registered_by_name"
@@ -258,24 +267,32 @@ def specDelete (before : World) (k : Key) (cascade found : Bool) (res : Option R
         (if res ≠ some .ok && after = before then none else some "refuse_non_api")
       else
         let kids := (deps.filter (fun e => e.2 = k && before.has e.1)).map (·.1)
+        let allowed := if cascade then dependentsF (before.objs.length + 1) deps [k] else [k]
         if !cascade && !kids.isEmpty then
           (if res ≠ some .ok && after = before then none else some "cascade_only_when_asked")
-        else if res ≠ some .ok then
+        else if res ≠ some .ok && !(match thr with | some f => allowed.contains f | none => false) then
           (if after = before then none else some "fail_leaves_nothing")
         else
-          let gone := (before.objs.filter (fun x => !after.objs.contains x)).map (·.key)
-          let allowed := if cascade then dependentsF (before.objs.length + 1) deps [k] else [k]
-          if after.has k || after.items.contains k ||
-              (match file with | some p => after.files.contains p | none => false) then
+          let gone := (before.objs.filter (fun x => !after.has x.key)).map (·.key)
+          let stays (x : OObj) : Bool := before.objs.contains x ||
+            (match thr with | some f => x.key = f && before.objs.any (fun y => deactivated y = x) | none => false)
+          if res = some .ok && (after.has k || after.items.contains k ||
+              (match file with | some p => after.files.contains p | none => false)) then
             some "delete_removes_object_and_file"
           else if !subsetKeys gone allowed then some "cascade_only_dependents"
           -- a cascade is complete: every (transitive) dependent is gone; and whatever object went, its
           -- configuration item and its file went with it
-          else if (allowed.any (fun d => after.has d)) ||
+          else if (res = some .ok && allowed.any (fun d => after.has d)) ||
               gone.any (fun g => after.items.contains g ||
                 (match fileOfKey fileOf g with | some p => after.files.contains p | none => false)) then
             some "cascade_complete"
-          else if !(after.objs.all (fun x => before.objs.contains x)) || after.glob ≠ before.glob then
+          -- an object whose deletion did not happen (the call failed, or stopped before it) is still whole:
+          -- its configuration item and its file are still there
+          else if before.objs.any (fun x => after.has x.key && created.contains x.key &&
+              ((before.items.contains x.key && !after.items.contains x.key) ||
+               (match fileOfKey fileOf x.key with | some p => before.files.contains p && !after.files.contains p | none => false))) then
+            some "kept_object_keeps_item_and_file"
+          else if !(after.objs.all stays) || after.glob ≠ before.glob then
             some "others_untouched"
           else none
 
